@@ -6,7 +6,7 @@ use nom::{
         complete::{char, digit1, multispace0 as space0, satisfy},
         is_alphabetic, is_alphanumeric,
     },
-    combinator::{consumed, cut, eof, map, map_res, opt, recognize, value},
+    combinator::{consumed, cut, eof, map, map_res, not, opt, recognize, value},
     error::{ErrorKind, FromExternalError, ParseError},
     multi::{many0, separated_list0, separated_list1},
     sequence::{delimited, pair, preceded, separated_pair, terminated, tuple},
@@ -292,7 +292,20 @@ fn predicate_or_expression(i: &str) -> IResult<&str, PredOrExpr, Error> {
 }
 
 fn scopes(i: &str) -> IResult<&str, Vec<builder::Scope>, Error> {
-    if let Ok((i, _)) = preceded(space0, tag::<_, _, ()>("trusting"))(i) {
+    // `trusting` is the keyword only when it is a word of its own: `trusting_level(1)` and
+    // `trusting(1)` are predicates
+    let is_name_char = |c: char| is_alphanumeric(c as u8) || c == '_' || c == ':';
+    if let Ok((i, _)) = preceded(
+        space0,
+        terminated(
+            tag::<_, _, ()>("trusting"),
+            not(alt((
+                value((), satisfy(is_name_char)),
+                value((), preceded(space0, char('('))),
+            ))),
+        ),
+    )(i)
+    {
         separated_list1(preceded(space0, char(',')), preceded(space0, cut(scope)))(i)
     } else {
         Ok((i, vec![]))
